@@ -64,6 +64,9 @@ def main(argv):
                 results[m["name"]] = ok
             else:
                 props = m["props"] or ["C01", "C02", "C03", "C05", "C06", "C07", "C08", "C09", "C10", "C11", "C16"]
+                only = os.environ.get("MUT_ONLY_PROPS")
+                if only:
+                    props = [x for x in props if x in only.split(",")]
                 for pid in props:
                     rc, out, dt = run_check(d, pid)
                     viol = [l for l in out.splitlines() if l.startswith("VIOLATION")]
